@@ -65,6 +65,18 @@ pub fn judge_split(ty: &str, s: &str) -> Option<Fail> {
     if b.package_type != t || !b.parts.version.is_empty() || !b.parts.subpath.is_empty() || !b.parts.qualifiers.is_empty() {
         return Some(Fail::tagged("other-field-touched", ty, format!("builder_with_combined_name({ty}, {s:?}) set something besides namespace and name")));
     }
+    // ... and that is what the PURL built from it reports: the namespace as split, the name
+    // as split and then subject to the type's own name rule (C08), nothing else
+    if let Out::Ok(p) = obs::build(b) {
+        let want_name = crate::model::typed_name(ty, &name);
+        if p.namespace().unwrap_or("") != ns || p.name() != want_name {
+            return Some(Fail::tagged(
+                "built-differs-from-split",
+                ty,
+                format!("builder_with_combined_name({ty}, {s:?}).build() reports namespace {:?} / name {:?}; the split gives namespace {ns:?} / name {want_name:?}", p.namespace(), p.name()),
+            ));
+        }
+    }
     None
 }
 
@@ -253,9 +265,15 @@ pub fn run(ctx: &mut Ctx) {
     // every dictionary token alone, after and before a plain word, and after a namespace
     if ctx.worker == 0 {
         for t in gen::DICTIONARY {
-            for form in [t.to_string(), format!("name{t}"), format!("{t}name"), format!("a/b/name{t}"), format!("g:a:name{t}"), format!("a/b/{t}"), format!("name{t}/x")] {
-                for ty in &types {
-                    split_case(ctx, ty, &form, "dictionary-tokens");
+            let capitalised: String = {
+                let mut c = t.chars();
+                c.next().map(|f| f.to_ascii_uppercase().to_string() + c.as_str()).unwrap_or_default()
+            };
+            for t in [t.to_string(), t.to_ascii_uppercase(), capitalised] {
+                for form in [t.clone(), format!("name{t}"), format!("{t}name"), format!("a/b/name{t}"), format!("g:a:name{t}"), format!("a/b/{t}"), format!("name{t}/x"), format!("{t}/Foo/bar"), format!("x/{t}/y/name")] {
+                    for ty in &types {
+                        split_case(ctx, ty, &form, "dictionary-tokens");
+                    }
                 }
             }
         }
